@@ -358,7 +358,83 @@ func (e *Enc) applyItems(items []frameItem) {
 	}
 }
 
-func (e *Enc) havocAll() {
+// privCell is the cell of a local variable of this activation whose address no callee can obtain.
+type privCell struct {
+	heap, sort string
+	ref        Term
+}
+
+// isPrivateAlloc: the address of the allocated cell is used only by loads, stores and as a binding of closures
+// that this function merely calls or defers (so no other code can reach the variable).
+func isPrivateAlloc(a *ssa.Alloc) bool {
+	refs := a.Referrers()
+	if refs == nil {
+		return false
+	}
+	for _, r := range *refs {
+		switch r := r.(type) {
+		case *ssa.DebugRef:
+		case *ssa.UnOp:
+			if r.Op != token.MUL {
+				return false
+			}
+		case *ssa.Store:
+			if r.Addr != ssa.Value(a) {
+				return false // the address itself is stored somewhere
+			}
+		case *ssa.MakeClosure:
+			crefs := r.Referrers()
+			if crefs == nil {
+				return false
+			}
+			for _, cr := range *crefs {
+				switch cr := cr.(type) {
+				case *ssa.DebugRef:
+				case *ssa.Defer:
+					if cr.Call.Value != ssa.Value(r) {
+						return false
+					}
+				case *ssa.Call:
+					if cr.Call.Value != ssa.Value(r) {
+						return false
+					}
+				default:
+					return false
+				}
+			}
+		default:
+			return false
+		}
+	}
+	return true
+}
+
+func (e *Enc) havocAll() { e.havocAllExcept(true) }
+
+// havocAllExcept havocs every heap; with keepPrivate the private cells of this activation keep their values
+// (an unknown callee cannot reach them).
+func (e *Enc) havocAllExcept(keepPrivate bool) {
+	type saved struct {
+		c privCell
+		v Term
+	}
+	var keep []saved
+	if keepPrivate {
+		for _, c := range e.privCells {
+			H := e.hget(e.cur, c.heap, c.sort)
+			keep = append(keep, saved{c, e.define("keep_"+c.heap, strings.TrimSuffix(strings.TrimPrefix(c.sort, "(Array Int "), ")"), tSel(H, c.ref))})
+		}
+	}
+	defer func() {
+		for _, k := range keep {
+			H := e.hget(e.cur, k.c.heap, k.c.sort)
+			e.cur.h[k.c.heap] = e.define(k.c.heap, k.c.sort, tStore(H, k.c.ref, k.v))
+		}
+	}()
+	e.havocAllRaw()
+}
+
+func (e *Enc) havocAllRaw() {
 	for _, n := range e.heapOrder {
 		if n == "$alloc" || n == "$held" || strings.HasPrefix(n, "$defer") || strings.HasPrefix(n, "$g$") {
 			continue // allocation counter handled below; lock state and function-level ghosts are not code-visible
@@ -612,7 +688,8 @@ func (e *Enc) unknownCall(key, site string, sig *types.Signature, c *ssa.CallCom
 		if e.fc != nil && e.fc.HasModifies {
 			e.oblige("frame", e.ordName("frame:call"), tFalse, in.Pos(), "call without frame contract: "+keyOr(key, site))
 		}
-		e.havocAll()
+		_, isClosure := c.Value.(*ssa.MakeClosure)
+		e.havocAllExcept(!isClosure)
 	}
 	return e.freshResults(sig, site)
 }
